@@ -165,11 +165,21 @@ func Str(t *rapid.T, o TreeOpts, label string) []byte {
 	if c == 137 && !o.NoBigStr { // (interior value: rapid favours the bounds of a range)
 		b := make([]byte, rapid.SampledFrom([]int{65, 255, 256, 32766, 32767, 32767, 32767}).Draw(t, label+"_biglen"))
 		f := rapid.Byte().Draw(t, label+"_fill")
+		f2 := f
+		if rapid.IntRange(0, 2).Draw(t, label+"_fillcls") == 1 {
+			// both quote characters and backslashes: whichever delimiter the writer picks, about half of the
+			// bytes need an escape (the escaped text is longer than 32767 although the string is not)
+			f = rapid.SampledFrom([]byte{'"', '\'', '\\'}).Draw(t, label+"_fillq")
+			f2 = rapid.SampledFrom([]byte{'"', '\'', '\\'}).Draw(t, label+"_fillq2")
+		}
 		if o.TextKeys {
-			f = 'a' + f%26
+			f, f2 = 'a'+f%26, 'a'+f2%26
 		}
 		for i := range b {
 			b[i] = f
+			if i%2 == 1 {
+				b[i] = f2
+			}
 		}
 		return b
 	}
